@@ -50,7 +50,7 @@ def describe(hist):
         op = h["op"]
         out.append({"insert_run": lambda: "insert %d..%d %s" % (op["lo"], op["lo"] + op["len"] - 1, op["ord"]),
                     "delete_range": lambda: "delete id in %d..%d" % (op["lo"], op["hi"]), "delete_eq": lambda: "delete a=%d" % op["v"],
-                    "update_range": lambda: "a+=1 for id in %d..%d" % (op["lo"], op["hi"]), "reopen": lambda: "reopen"}[op["k"]]())
+                    "update_range": lambda: "a+=1 for id in %d..%d" % (op["lo"], op["hi"]), "reopen": lambda: "reopen"}.get(op["k"], lambda: op["k"])())
     return "; ".join(out)
 
 
